@@ -14,6 +14,7 @@ TRUSTED = [
 ]
 ASSUMPTIONS = ["gt_exp* have a contract on target-group elements only: for field elements outside the group the cyclotomic routines are not "
                "claimed (lines tagged gte.outside are not judged)"]
+EXTRA_THEOREM_MODULES = ["RelicVerif.Lemmas.PcValid"]
 RULE = ("both pairing-friendly curves: subgroup elements, twist points outside the subgroup, off-curve coordinates, identity, field elements "
         "outside the cyclotomic subgroup, cyclotomic elements of order not dividing r; scalars of every class of C03; every variant by name; "
         "non-trivial = distinct line with a non-error result")
@@ -29,6 +30,18 @@ def gen_lines(rng, ex, cid, st, count):
     pool1 = [cv1.mul(cv1.g, rng.bits(256) % st.n) for _ in range(4)] + [cv1.g]
     pool2 = [cv2.mul(cv2.g, rng.bits(256) % st.n) for _ in range(3)] + [cv2.g]
     outside = pg.outside_g2(ex, cid, rng, 4)
+    # points of E(Fp) found from x (for a cofactor != 1 almost surely OUTSIDE the subgroup: the endomorphism-based test of
+    # g1_is_valid must reject them), and their cofactor-cleared multiples are not needed: pool1 is inside
+    out1 = []
+    if st.p % 4 == 3:
+        a1, b1 = int(st.kv["a1"], 16), int(st.kv["b1"], 16)
+        x = rng.bits(200)
+        while len(out1) < 4:
+            x += 1
+            rhs = (x * x * x + a1 * x + b1) % st.p
+            y = pow(rhs, (st.p + 1) // 4, st.p)
+            if y * y % st.p == rhs:
+                out1.append((x % st.p, y if rng.chance(1, 2) else (st.p - y) % st.p))
     valid, cyc, rnd, pre = pg.gt_elements(ex, cid, rng, st, 4)
     out += pre
     one = "1," + ",".join(["0"] * 11)
@@ -43,9 +56,11 @@ def gen_lines(rng, ex, cid, st, count):
     for _ in range(count):
         k = rng.below(100)
         if k < 10:
-            P = rng.choice(pool1 + [None])
+            P = rng.choice(pool1 + out1 + [None])
             j = rng.below(4)
-            if P is not None and j == 0:
+            if P in out1:
+                pass
+            elif P is not None and j == 0:
                 P = (P[0], (P[1] + 1) % st.p)           # off the curve
             elif P is not None and j == 1:
                 P = ((P[0] + 1) % st.p, P[1])
